@@ -331,5 +331,8 @@ func TestVerifC12(t *testing.T) {
 		v.Seen(term, nrep >= 2, meta)
 		v.Case(s, term, meta)
 	}
+	if n := v.counts["returned.relabelled signers (same bytes)"]; n > 0 {
+		v.Note(fmt.Sprintf("remark (not counted as a violation): in %d reply sets RequestBlockQF returned a block whose certificate carries other signer labels than the stored block; Block.ToBytes covers the signature bytes but not the signer ids / BLS bitfield, so both blocks have the requested hash", n))
+	}
 	v.Close("random reply sets of 1..5 answers per request; non-trivial = at least two replies")
 }
